@@ -47,6 +47,7 @@ type FuncSpec struct {
 	Pure     bool
 	Assumed  bool // contract of a repository function that is NOT verified (wrappers of external services); listed as an assumption
 	NoPanicOnly []string
+	ExactPrefix map[string]bool // families whose byte-prefix iteration is assumed to select exactly the given components
 	Nullable []string // parameter field paths (param.Field) whose pointer may be nil
 	Inline   bool
 	Lets     []*Clause // let name := expr (evaluated in post-state)
@@ -271,6 +272,13 @@ func (db *SpecDB) loadFile(pkgPath, file string) error {
 			}
 			for _, p := range ps {
 				cur.NoPanic[p] = true
+			}
+		case strings.HasPrefix(body, "exact-prefix "):
+			if cur.ExactPrefix == nil {
+				cur.ExactPrefix = map[string]bool{}
+			}
+			for _, f := range strings.Fields(body[13:]) {
+				cur.ExactPrefix[f] = true
 			}
 		case strings.HasPrefix(body, "nullable "):
 			cur.Nullable = append(cur.Nullable, strings.Fields(body[9:])...)
